@@ -49,6 +49,12 @@ type c19Cap struct {
 	mu      sync.Mutex
 	reqs    []c19Req
 	dials   map[string]string // client socket address -> address the client wanted
+	// epoch counts the cases; a connection belongs to the case that was running when it was dialled. A request served on
+	// a connection of an earlier case (the client gave up or is still running while the next case has begun - seen once
+	// under heavy load) is answered 503 and not recorded: it is not this case's request.
+	epoch      int
+	dialEpoch  map[string]int
+	staleCount int
 	script  *c19Case
 	index   [][]byte // per repo of script
 	archive []byte
@@ -67,8 +73,8 @@ var (
 func c19Capture() *c19Cap {
 	c19CapOnce.Do(func() {
 		c := &c19Cap{dials: map[string]string{}}
-		plain := httptest.NewServer(http.HandlerFunc(func(w http.ResponseWriter, r *http.Request) { c.serve(w, r, "http", c.dialOf(r.RemoteAddr)) }))
-		tlsMark := httptest.NewServer(http.HandlerFunc(func(w http.ResponseWriter, r *http.Request) { c.serve(w, r, "https", c.dialOf(r.RemoteAddr)) }))
+		plain := httptest.NewServer(http.HandlerFunc(func(w http.ResponseWriter, r *http.Request) { c.serveDirect(w, r, "http") }))
+		tlsMark := httptest.NewServer(http.HandlerFunc(func(w http.ResponseWriter, r *http.Request) { c.serveDirect(w, r, "https") }))
 		c.plainAddr, c.tlsMarkAddr = plain.Listener.Addr().String(), tlsMark.Listener.Addr().String()
 		dialTo := func(target string) func(addr string) (net.Conn, error) {
 			return func(addr string) (net.Conn, error) {
@@ -85,7 +91,7 @@ func c19Capture() *c19Cap {
 		c.tr.DialContext = func(_ context.Context, _, addr string) (net.Conn, error) { return dp(addr) }
 		c.tr.DialTLSContext = func(_ context.Context, _, addr string) (net.Conn, error) { return dt(addr) }
 
-		tlsBack := httptest.NewUnstartedServer(http.HandlerFunc(func(w http.ResponseWriter, r *http.Request) { c.serve(w, r, "https", c.dialOf(r.RemoteAddr)) }))
+		tlsBack := httptest.NewUnstartedServer(http.HandlerFunc(func(w http.ResponseWriter, r *http.Request) { c.serveDirect(w, r, "https") }))
 		tlsBack.Config.ErrorLog = c19NoLog()
 		tlsBack.StartTLS()
 		c.tlsBackAddr = tlsBack.Listener.Addr().String()
@@ -99,7 +105,23 @@ func c19Capture() *c19Cap {
 func (c *c19Cap) setDial(sock, want string) {
 	c.mu.Lock()
 	c.dials[sock] = want
+	if c.dialEpoch == nil {
+		c.dialEpoch = map[string]int{}
+	}
+	c.dialEpoch[sock] = c.epoch
 	c.mu.Unlock()
+}
+
+// stale reports whether the connection the request came in on was dialled during an earlier case.
+func (c *c19Cap) stale(sock string) bool {
+	c.mu.Lock()
+	defer c.mu.Unlock()
+	e, ok := c.dialEpoch[sock]
+	if !ok || e != c.epoch {
+		c.staleCount++
+		return true
+	}
+	return false
 }
 
 func (c *c19Cap) dialOf(sock string) string {
@@ -155,6 +177,16 @@ func c19KindOf(p string) string {
 }
 
 // serve records the request and answers it by the script of the running case.
+// serveDirect serves a request that arrived on a connection made by one of the capture's own dialers.
+func (c *c19Cap) serveDirect(w http.ResponseWriter, r *http.Request, scheme string) {
+	if c.stale(r.RemoteAddr) {
+		w.Header().Set("Connection", "close")
+		w.WriteHeader(http.StatusServiceUnavailable)
+		return
+	}
+	c.serve(w, r, scheme, c.dialOf(r.RemoteAddr))
+}
+
 func (c *c19Cap) serve(w http.ResponseWriter, r *http.Request, scheme, dest string) {
 	p := r.URL.Path
 	kind := c19KindOf(p)
@@ -241,7 +273,17 @@ func c19MatchRepo(cs *c19Case, org c19Org, p string) int {
 func (c *c19Cap) begin(cs *c19Case, index [][]byte, archive []byte) {
 	c.mu.Lock()
 	c.reqs, c.script, c.index, c.archive = nil, cs, index, archive
-	c.dials = map[string]string{}
+	c.epoch++
+	if len(c.dialEpoch) > 4096 {
+		for sock, e := range c.dialEpoch {
+			if e < c.epoch-1 {
+				delete(c.dialEpoch, sock)
+				delete(c.dials, sock)
+			}
+		}
+	}
+	// (dials and dialEpoch are kept: an entry is overwritten when its socket address is dialled again, and only entries
+	// of the running epoch are honoured)
 	c.mu.Unlock()
 }
 
